@@ -87,6 +87,11 @@ class DetectVarNames( ast.NodeVisitor ):
         elif isinstance( v, ast.Call ): # int(x)
           for x in v.args:
             self.visit(x)
+        elif isinstance( v, (ast.Subscript, ast.BinOp, ast.UnaryOp, ast.Compare, ast.IfExp) ):
+          # s.x[ s.sel[0] ][0:4], s.x[ s.a + 1 ].f: the signals read by an
+          # index expression are reads of the block even when the indexed
+          # name continues with a field, another index or a slice.
+          self.visit( v )
 
         num.append(n)
 
@@ -186,6 +191,11 @@ class DetectVarNames( ast.NodeVisitor ):
         elif isinstance( v, ast.Call ): # int(x)
           for x in v.args:
             self.visit(x)
+        elif isinstance( v, (ast.Subscript, ast.BinOp, ast.UnaryOp, ast.Compare, ast.IfExp) ):
+          # s.x[ s.sel[0] ][0:4], s.x[ s.a + 1 ].f: the signals read by an
+          # index expression are reads of the block even when the indexed
+          # name continues with a field, another index or a slice.
+          self.visit( v )
         elif isinstance( v, ast.Slice ): # s.sel, may be constant
           raise TypeError( f"Having slice in the middle such as s.x[1][1:2][1][2] "
                            f"doesn't make sense at line {input_node.lineno} of "
